@@ -50,6 +50,7 @@ class FnView:
         self._defs = None
         self._expr_cache = {}
         self.restrict = None
+        self.keep_names = False
         self.policy_sites = []   # (bi, tag)
         if policy_diverges:
             self._prune_policy()
@@ -424,8 +425,21 @@ class FnView:
             return ("var", f"_{local}")
         self._expr_cache[key] = ("var", self._vname(local))  # cycle guard
         e = self._local_expr(local, depth)
+        if self.keep_names and e[0] not in ("param", "var", "let"):
+            n = self.b.local_name(local)
+            if n is not None:
+                e = ("let", n, e)
         self._expr_cache[key] = e
         return e
+
+    def named(self):
+        """view whose expressions keep user variable names: a named single-definition local is
+        ("let", name, value); render() shows the name, subexprs() still sees the value"""
+        import copy
+        v = copy.copy(self)
+        v.keep_names = True
+        v._expr_cache = {}
+        return v
 
     def _vname(self, local):
         n = self.b.local_name(local)
@@ -528,12 +542,14 @@ class FnView:
 def deref(e):
     if e[0] == "ref":
         return e[1]
+    if e[0] == "let" and e[2][0] == "ref":
+        return e[2][1]
     return e  # auto-deref of a param reference: keep the symbol
 
 
 def strip_ref(e):
-    while e[0] == "ref":
-        e = e[1]
+    while e[0] in ("ref", "let"):
+        e = e[1] if e[0] == "ref" else e[2]
     return e
 
 
@@ -604,6 +620,8 @@ def render(e):
         return e[1]
     if k == "ref":
         return render(e[1])
+    if k == "let":
+        return e[1]
     if k == "field":
         return f"{render(e[1])}.{e[3]}"
     if k == "variant":
